@@ -734,3 +734,47 @@ def path_inequalities(path: Path, start: int = 0, stop: int = None, transform=No
         if found is not None:
             result.append((pos, found, event.kind == 'assert'))
     return result
+
+
+# ------------------------------------------------------------------- iterations
+class Iteration:
+    """one pass through a loop body on a path (``for`` statement or comprehension)"""
+
+    def __init__(self, path, start, stop, node, number):
+        self.path, self.start, self.stop, self.node, self.number = path, start, stop, node, \
+            number
+        self.var = ast.unparse(node.target)
+        self.source = value_text(path, start, node.iter)
+
+    def atoms(self, upto=None, keep=()):
+        keep = tuple(keep) + tuple(n.id for n in ast.walk(self.node.target)
+                                   if isinstance(n, ast.Name))
+        return path_atoms(self.path, self.start, self.stop if upto is None else upto,
+                          keep=keep)
+
+    def events(self):
+        return list(enumerate(self.path.events[self.start:self.stop], self.start))
+
+
+def iterations(path: Path, depth0: bool = True) -> list:
+    """all loop iterations on the path, in order of their start"""
+    result = []
+    counts = {}
+    for index, event in enumerate(path.events):
+        if event.kind != 'iter-next' or (depth0 and event.depth != 0):
+            continue
+        stop = len(path.events)
+        for later in range(index + 1, len(path.events)):
+            other = path.events[later]
+            if other.kind in ('iter-next', 'iter-end') and other.node is event.node and \
+                    other.data.get('fid') == event.data.get('fid'):
+                stop = later
+                break
+        counts[id(event.node)] = counts.get(id(event.node), 0) + 1
+        result.append(Iteration(path, index, stop, event.node, counts[id(event.node)]))
+    return result
+
+
+def loop_completed(path: Path, node) -> bool:
+    """the loop ran to exhaustion on this path (no break / return out of it)"""
+    return any(e.kind == 'iter-end' and e.node is node for e in path.events)
